@@ -128,6 +128,11 @@ listed as a finding.
   processing met an injected HAProxy failure and then a read failure inside its own roll-back;
   it was answered 422 and left its file behind. Two failures in one update are outside the
   fault model for the first update (R1/R2) and are now outside it for the second one as well.
+* **C08 R4 on a probe that met the second update** (thorough sweep with VERIF_SEED=9, seed
+  9011075, on the unchanged tree): a /p5 transaction during the first update was answered by
+  the flow of the second, accepted update ("415") and counted as "neither old nor new" for the
+  first one. The second update is judged on its own (R5); its answer on /p5 is no longer held
+  against the first.
 * **C02 fixed-window child outside its parent's filter** (wave g, never committed as
   failing): with a fixed-window internal limit on `a.com/c` below a concurrency quota on
   `a.com/p` the parent's slot was not given back on the response, only at expiry: a
@@ -357,6 +362,31 @@ needed tasks parked inside critical sections and blocking on locks - the simulat
 described in section 0 was built for it; scenario C06L reports the deadlock with the tasks
 and lock sites involved, and scenario C18L, built on the same kernel feature, re-detects the
 lock-order inversion that `219b1de` had corrected).
+
+Tenth wave (suffix j), 16 changes: 5 were caught as delivered (C02j, C10j, C11j, C12j,
+C18j), C03j by the C18 check (a pooled result object handed back while its transaction still
+uses it: races and a non-serialisable outcome), 10 were missed at first. What was changed:
+C19j (the reference allowed the breaker to re-open on the first failure after a cool-down
+because the count that opened it may still stand - also when a call that had been sent
+through the gateway before it opened succeeded in the meantime: that success clears the
+count, the leniency is now cancelled by it),
+C05j (quota filters had no expressions, internal limits no filter blocks of their own: added),
+C06j (a same-priority arrival between the loop taking the only waiting request off the
+queue and putting it back: profile 6 opens every run with exactly that, scripted),
+C09j (the quota gauge was never read: metrics reads between requests, an observation must
+change nothing),
+C15j (the harness process ran in UTC: half of the runs set another time zone),
+C20j (the stable period was measured from the start of the first check that saw the new
+state, the earliest instant it could count as observed; it is measured from the instant that
+check answered now - a state is observed once the evaluation has answered),
+C01j (only plain fixed-window quotas: custom-counter quotas whose requests carry their own
+cost, some costing more than the whole maximum; the reference was taught that such a request
+is refused without opening a window, which is what the unchanged engine does),
+C08j (every file had content: an empty configuration file),
+C04j (system flows of quotas were judged on their order only: their processors run once per
+transaction side),
+C17j (every attempt had a transaction id of its own: a quarter of the flows-mode runs pin
+the id, every attempt carries the sequence's id).
 
 ### 12.1 Reverting the repairs
 
